@@ -399,6 +399,9 @@ def p_slice(I, n, pos, kw):
     else:
         return I.unknown("prim:builtins.slice", n)
     if any(x is False for x in parts):
+        import os
+        if os.environ.get("PST_DBG"):
+            print("SLICEDBG", [repr(x)[:100] for x in pos], file=__import__("sys").stderr)
         return I.unknown("prim:builtins.slice", n)
     item = ("full",) if all(x is None for x in parts) else ("slice", parts[0], parts[1], parts[2])
     return ObjV(None, dict(items=[item]), tag="slice")
@@ -551,8 +554,12 @@ def p_isinstance(I, n, pos, kw):
             return isinstance(v, Seq) and v.kind == "tuple"
         if name == "numpy.ndarray":
             return isinstance(v, (Arr, Blocks, DiagMat)) and getattr(v, "kind", "nd") == "nd"
-        if name in ("builtins.int", "builtins.float"):
+        if name in ("builtins.int", "builtins.float", "numbers.Number", "numbers.Real", "numbers.Complex", "numpy.number",
+                    "numpy.floating", "numpy.integer"):
+            # a scalar the evaluator follows as a number (whether it is integral is not tracked: int / float / Number only)
             return isinstance(v, Sc) and v.e[0] not in ("bool", "str")
+        if name in ("collections.abc.Iterable", "collections.abc.Sequence", "collections.abc.Sized"):
+            return isinstance(v, (Seq, Arr, Concat, Bag, Blocks, DiagMat, DictV, StrV))
         if name == "builtins.str":
             return isinstance(v, StrV)
         if name == "builtins.dict":
